@@ -329,6 +329,12 @@ where
         block: &Call,
         cb_table: &CodeBlockTable,
     ) -> Result<(), ExecutionError> {
+        // a call or a syscall cannot be started while the VM is executing a syscall
+        if self.system.in_syscall() {
+            let instruction = if block.is_syscall() { "syscall" } else { "call" };
+            return Err(ExecutionError::CallInSyscall(instruction));
+        }
+
         // if this is a syscall, make sure the call target exists in the kernel
         if block.is_syscall() {
             self.chiplets.access_kernel_proc(block.fn_hash())?;
